@@ -29,7 +29,7 @@ SUFFIXES = ["", "#", ["a"], ["0"], ["~", "/"], ["é", ""], ["m~n", "a/b", "10"],
 
 
 def plan(tier, seed):
-    specs = [{"kind": "exhaustive", "first": t} for t in ALPHABET] + [{"kind": "exhaustive", "first": None}, {"kind": "syntax"}, {"kind": "backslash"}]
+    specs = [{"kind": "exhaustive", "first": t} for t in ALPHABET] + [{"kind": "exhaustive", "first": None}, {"kind": "syntax"}, {"kind": "backslash"}, {"kind": "flags"}]
     for _ in range(4 if tier == "quick" else 14):
         specs.append({"kind": "depth3", "n": 6000 if tier == "quick" else 200000})
     return specs
@@ -135,6 +135,10 @@ def run(spec, ctx):
             suffix = r.choice(SUFFIXES)
             ctx.case(h(base, steps, offset, suffix))
             check(ctx, base, steps, offset, suffix)
+    elif spec["kind"] == "flags":
+        from rt import flag_history
+
+        flag_history.run(ctx)
     elif spec["kind"] == "backslash":
         # suffix tokens that still contain a backslash sequence after one decoding: the
         # result must append exactly the tokens the suffix pointer itself has (decoded once)
@@ -188,6 +192,8 @@ def finalize(m, tier):
 def replay(case, ctx):
     if "syntax" in case:
         run({"kind": "syntax"}, ctx)
+    elif case.get("flags"):
+        run({"kind": "flags"}, ctx)
     elif case.get("backslash"):
         run({"kind": "backslash"}, ctx)
     else:
